@@ -48,14 +48,15 @@ class Cfg:
         self.float_chunks = float_chunks
         # the worker class defines value equality (all workers of a pool compare equal): the pool tells them apart by identity
         self.equal_workers = equal_workers
-        # oracle-only runs: the pool is constructed with a finite `join_timeout`; a timed join of a worker process returns
-        # whenever the scheduler lets it, whether the worker has exited or not (a worker whose end() takes long).  The worker
-        # objects also answer like `multiprocessing.Process` objects do: close() of a running one raises ValueError
+        # the pool is constructed with a finite `join_timeout` (model: Cfg.joinTimeout): a timed join of a worker process returns
+        # whenever the scheduler lets it, whether the worker has exited or not, and the end() of a retiring worker is a step of
+        # its own (a worker whose end() takes long).  The worker objects also answer like `multiprocessing.Process` objects
+        # do: close() of a running one raises ValueError
         self.join_timeout = join_timeout
 
     @property
     def oracle_only(self):
-        return self.impatient or self.join_timeout
+        return self.impatient
 
     def work_cap_int(self):
         wc = 1.0 if self.work_cap == "default" else self.work_cap
@@ -72,7 +73,8 @@ class Cfg:
         q = None if self.quota is None else math.ceil(self.quota)
         return (f"cfg {self.n_workers} {o(wc)} {o(rc)} {1 if self.factory else 0} {o(q)} "
                 f"{1 if self.wait_ready else 0} calls: {calls} bf: {' '.join(map(str, self.begin_fault))} "
-                f"if: {' '.join(f'{a}:{b}' for a, b in self.item_fault)}" + (" rm:1" if self.ready_mid else "")).replace("  ", " ")
+                f"if: {' '.join(f'{a}:{b}' for a, b in self.item_fault)}" + (" rm:1" if self.ready_mid else "") +
+                (" jt:1" if self.join_timeout else "")).replace("  ", " ")
 
     def to_json(self):
         return dict(n_workers=self.n_workers, work_cap=self.work_cap, res_cap=self.res_cap, factory=self.factory,
@@ -212,8 +214,10 @@ class SimEnv:
                     raise FAULTS[env.cfg.fault_exc]("begin failed")
 
             def end(self):
-                if getattr(env.cfg, "join_timeout", False):
-                    # an end() that takes its time: the process is still running for a while after it posted its identifier
+                if getattr(env.cfg, "join_timeout", False) and self.max_chunks_per_worker <= 0 and \
+                        getattr(self, "replace_queue", None) is not None and not getattr(self, "_fault_hit", False):
+                    # the end() of a retiring worker takes its time: the process is still running for a while after it posted
+                    # its identifier (model: WPc.ending)
                     env.sched.visible(f"end W{self.wid}")
                     env.sched.record(f"end W{self.wid}")
                 env.logs.setdefault(self.wid, []).append("e")
